@@ -62,21 +62,25 @@ def check_one_origin(ctx, rule, body, role):
         rep.check(ok_recv, rule, key + '/table', 'table receiver is %s (statement %s)' % (short(recv, 120), short(st_recv, 80) if st_recv is not None else None),
                   'cannot identify the statement whose precomputed table is used: %s' % short(recv, 200), where)
         static = a[1]
-        pads = [x for x in walk(static) if x.tag == 'call' and x[1].endswith('compute_generator_padding')]
-        if len(pads) != 1:
-            rep.violation(rule, key + '/padding', 'static scalars are not padded by exactly one compute_generator_padding call (found %d): %s' % (len(pads), short(static, 200)), where)
+        # the padding count: the `take(n)` applied to the repeated zero that is chained after the interleaved vectors
+        st0 = strip_mut(static)
+        pad = None
+        if st0.tag == 'chain' and strip_mut(st0[2]).tag == 'adapt' and strip_mut(st0[2])[1] == 'take' and len(strip_mut(st0[2]).args) >= 3:
+            pad = strip_mut(st0[2])[3]
+        if pad is None:
+            rep.violation(rule, key + '/padding', 'static scalars are not padded by take(repeat(0), n): %s' % short(static, 200), where)
             continue
-        pad = pads[0]
-        pargs = pad[2]
         roles = ('bit length', 'aggregation factor', 'capacity')
         want_fields = ('gens_capacity', 'commitments', 'party_capacity')
-        for i, pa in enumerate(pargs[:3]):
-            st = statement_of(pa)
-            same = st is not None and st_recv is not None and st is st_recv
-            shape = ctx.mentions_field(pa, want_fields[i])
-            rep.check(same and shape, rule, key + '/padding/%s' % roles[i].replace(' ', '_'),
-                      'padding %s is %s of the same statement as the table' % (roles[i], short(pa, 100)),
-                      'padding %s (%s) is not the %s of the statement whose table is used (%s)' % (roles[i], short(pa, 140), want_fields[i], short(st_recv, 100) if st_recv is not None else None), where)
+        # every statement-rooted datum inside the padding count must come from the statement whose table is used
+        for i, wf in enumerate(want_fields):
+            hits = [x for x in walk(pad) if x.tag == 'field' and x[1] == wf]
+            sts = [statement_of(x) for x in hits]
+            same = bool(hits) and all(s_ is not None and st_recv is not None and s_ is st_recv for s_ in sts)
+            rep.check(same, rule, key + '/padding/%s' % roles[i].replace(' ', '_'),
+                      'padding %s is the %s of the same statement as the table' % (roles[i], wf),
+                      'padding %s is not the %s of the statement whose table is used (%s): %s' % (roles[i], wf, short(st_recv, 100) if st_recv is not None else None,
+                                                                                                 [short(x, 100) for x in hits] or 'absent from the padding count'), where)
         # the padding must bound a `take` over a repeat of zero chained after the interleaved vectors
         st = strip_mut(static)
         shape_ok = st.tag == 'chain' and strip_mut(st[1]).tag == 'interleave' and strip_mut(st[2]).tag == 'adapt' and strip_mut(st[2])[1] == 'take'
@@ -98,7 +102,8 @@ def check_verify_msm(ctx, rule):
     where = ctx.where(v, r['bb'])
     st = r['statement']
     # the statement is statements[idx] with idx = .1 of the consistency call; vector length = .0 of the same call
-    cons = [x for x in walk(st) if x.tag == 'call' and 'consistency' in x[1]] if st is not None else []
+    cfn = consistency_fn(ctx, rule)
+    cons = [x for x in walk(st) if x.tag == 'call' and cfn is not None and x[1] == cfn.path] if st is not None else []
     idx_ok = st is not None and st.tag == 'elemat' and st[2].tag == 'field' and st[2][1] == '1' and st[2][2].tag == 'call' and st[2][2] in cons
     rep.check(idx_ok, rule, rule + '/verifier/max-statement', 'table and padding come from statements[index returned by the consistency function]: %s' % short(st, 160),
               'the statement used for table/padding is not selected by the index returned from the consistency function: %s' % (short(st, 200) if st is not None else None), where)
@@ -143,11 +148,7 @@ def consistency_fn(ctx, rule):
     v = verifier_core(ctx, rule)
     if v is None:
         return None
-    for bb, t in ctx.calls(v):
-        n = callee_name(t)
-        if n in ctx.facts.fn and 'consistency' in n:
-            return ctx.facts.fn[n]
-    # structural fallback: the local callee returning Result<(usize, usize), _>
+    # the local callee returning Result<(usize, usize), _> (length and index of the largest member)
     for bb, t in ctx.calls(v):
         n = callee_name(t)
         if n in ctx.facts.fn and '(usize, usize)' in ctx.facts.fn[n].locals[0]['ty']:
